@@ -82,6 +82,7 @@ type VerifKey struct {
 	Write     Permission
 	HasExpiry bool
 	Expired   bool
+	RemainMin int // remaining validity rounded to whole minutes (0 without expiry)
 }
 
 // VerifKeys lists the imported API keys sorted by key.
@@ -91,11 +92,15 @@ func VerifKeys() []VerifKey {
 	out := make([]VerifKey, 0, len(apiKeys))
 	now := time.Now()
 	for k, t := range apiKeys {
-		out = append(out, VerifKey{
+		vk := VerifKey{
 			Key: k, Read: t.Read, Write: t.Write,
 			HasExpiry: t.ValidUntil != nil,
 			Expired:   t.ValidUntil != nil && now.After(*t.ValidUntil),
-		})
+		}
+		if t.ValidUntil != nil {
+			vk.RemainMin = int(t.ValidUntil.Sub(now).Round(time.Minute) / time.Minute)
+		}
+		out = append(out, vk)
 	}
 	sort.Slice(out, func(i, j int) bool { return out[i].Key < out[j].Key })
 	return out
@@ -103,10 +108,11 @@ func VerifKeys() []VerifKey {
 
 // VerifSession describes one stored session.
 type VerifSession struct {
-	Key     string
-	Read    Permission
-	Write   Permission
-	Expired bool
+	Key       string
+	Read      Permission
+	Write     Permission
+	Expired   bool
+	RemainMin int // remaining validity rounded to whole minutes
 }
 
 // VerifSessions lists the stored sessions sorted by cookie value.
@@ -116,6 +122,9 @@ func VerifSessions() []VerifSession {
 	out := make([]VerifSession, 0, len(sessions))
 	for k, s := range sessions {
 		vs := VerifSession{Key: k, Expired: s.Expired()}
+		s.Lock()
+		vs.RemainMin = int(time.Until(s.validUntil).Round(time.Minute) / time.Minute)
+		s.Unlock()
 		if s.token != nil {
 			vs.Read, vs.Write = s.token.Read, s.token.Write
 		}
